@@ -340,6 +340,7 @@ pub fn gen_session(seed: u64, run: u64, _thorough: bool) -> Session {
         ops,
         crashes: Vec::new(),
         decisions: None,
+        hold: None,
         meta: json!({
             "expects": expects.iter().map(|e| json!({"id": e.req_id, "importer": e.importer, "module": e.module, "target": e.target, "ambiguous": e.ambiguous})).collect::<Vec<_>>(),
             "rename": rename_expect.iter().map(|(id, f, ext)| json!({"id": id, "file": f, "external": ext})).collect::<Vec<_>>(),
@@ -347,6 +348,7 @@ pub fn gen_session(seed: u64, run: u64, _thorough: bool) -> Session {
             "deps_late": deps_late,
             "packages": n_pkgs,
             "order_kind": order_kind,
+            "shape": pkgs.iter().map(|p| format!("{}{}:{:?}:{}", if p.external { "r" } else { "l" }, p.modules.len(), p.deps, p.modules.iter().map(|m| if m.1.starts_with("test") { 't' } else if m.0.contains('/') { 'n' } else { 's' }).collect::<String>())).collect::<Vec<_>>().join(";"),
         }),
     }
 }
@@ -388,7 +390,7 @@ pub fn check(s: &Session, h: &History, stats: &mut Stats) -> Option<Violation> {
     let deps_late = s.meta["deps_late"].as_bool().unwrap_or(false);
     let order_kind = s.meta["order_kind"].as_str().unwrap_or("").to_string();
     stats.nontrivial = s.meta["packages"].as_u64().unwrap_or(1) > 1;
-    stats.kind_key = format!("{}|{}|late={}", s.meta["packages"], order_kind, deps_late);
+    stats.kind_key = format!("{}|{}|late={}", s.meta["shape"], order_kind, deps_late);
     if let Some(v) = lspcheck::liveness_violation(s, h) {
         return Some(v);
     }
